@@ -1,24 +1,24 @@
 #!/bin/bash
-# Confirms every sub-agent change in one scratch worktree: compiles + suite passes with it,
-# demo fails with it, demo passes without it. Writes /tmp/confirm/<prop>-<k>.txt
-wt=/tmp/mut-C01/wt
-mkdir -p /tmp/confirm
+# tools/confirm_mutants.sh <base> <worktree> <props...> : confirm every sub-agent change under /tmp/<base>-<prop>/out/<k>
+# in one scratch worktree: pinned suite passes with it, demo fails with it, demo passes without it.
+base=$1; wt=$2; shift 2
+mkdir -p /tmp/confirm-$base
 cd $wt || exit 2
 for p in "$@"; do
- for k in 1 2 3; do
-  d=/tmp/mut-$p/out/$k
+ for k in 1 2 3 4; do
+  d=/tmp/$base-$p/out/$k
   [ -f $d/patch.diff ] || continue
-  out=/tmp/confirm/$p-$k.txt
+  out=/tmp/confirm-$base/$p-$k.txt
   git checkout -q -- . ; git clean -fdq -e target
   git apply $d/patch.diff || { echo "APPLY_FAIL" > $out; continue; }
-  suite=FAIL; cargo test --offline --lib --tests > /tmp/confirm/$p-$k.suite.log 2>&1 && suite=PASS
+  suite=FAIL; cargo test --offline --lib --tests > /tmp/confirm-$base/$p-$k.suite.log 2>&1 && suite=PASS
   cp $d/demo.rs tests/demo_x.rs
-  with=PASS; cargo test --offline --test demo_x > /tmp/confirm/$p-$k.with.log 2>&1 || with=FAIL
-  git checkout -q -- . 
-  without=FAIL; cargo test --offline --test demo_x > /tmp/confirm/$p-$k.without.log 2>&1 && without=PASS
+  with=PASS; cargo test --offline --test demo_x > /tmp/confirm-$base/$p-$k.with.log 2>&1 || with=FAIL
+  git checkout -q -- .
+  without=FAIL; cargo test --offline --test demo_x > /tmp/confirm-$base/$p-$k.without.log 2>&1 && without=PASS
   rm -f tests/demo_x.rs
   echo "suite_with_change=$suite demo_with_change=$with demo_without_change=$without" > $out
-  cat $out
+  echo "$p-$k $(cat $out)"
  done
 done
 git checkout -q -- . ; git clean -fdq -e target
